@@ -135,7 +135,28 @@ pub fn gen_base<B: BaseFut>(rng: &mut Rng) -> (B, u128) {
             let v = offset_mod(b, d, p);
             (B::from_int(v), v)
         },
-        5 => B::from_raw(rng.below128(B::REP_LIMIT)),
+        5 => {
+            if rng.bool() {
+                B::from_raw(rng.below128(B::REP_LIMIT))
+            } else {
+                // limb patterns: each half-word of the representation independently extreme
+                let half = if p >> 64 == 0 { 32 } else { 64 };
+                let mask: u128 = (1u128 << half) - 1;
+                let limb = |rng: &mut Rng| -> u128 {
+                    match rng.below(7) {
+                        0 => 0,
+                        1 => 1,
+                        2 => mask,
+                        3 => mask - 1 - rng.below(1 << 12) as u128,
+                        4 => 1u128 << (half - 1),
+                        5 => mask - (rng.u64() as u128 & ((1u128 << 46) - 1)).min(mask),
+                        _ => rng.u128() & mask,
+                    }
+                };
+                let raw = ((limb(rng) << half) | limb(rng)) % B::REP_LIMIT;
+                B::from_raw(raw)
+            }
+        },
         6 => {
             // small values and their negatives
             let v = rng.below(1 << 16) as u128;
